@@ -52,7 +52,7 @@ def check(run, repo, tier):
   r3_find_eq(run, w)
   r4_prevnext(run, w)
   from ._extra import c14_sortkey_total_order
-  c14_sortkey_total_order(run, w, "C14-R5")
+  run.guard(c14_sortkey_total_order, run, w, "C14-R5")
 
 
 def _const_int(node):
